@@ -19,6 +19,10 @@ CHECKS = {
     text="AbstractActorCriticOnPolicyAlgorithm.step and collect_rollout (S<=3) are traced over an UNINTERPRETED environment (bare and under TimeLimit with symbolic limit/count; Discrete with/without mask, Box(2) with symbolic bounds) and an uninterpreted stateful actor-critic policy, from an arbitrary carried state; every stored field, the clipped-action driving of transition and reward, done = term or trunc, bootstrapping iff truncated-and-not-terminated with V of the successor observation, resets of env and policy state with fresh keys, and mask recording are shown equal (unsat) to a reference interpreter written from the statement; collect_rollout equals the S-fold composition of the reference step followed by GAE on the recorded stream.",
     note="one step from an arbitrary state covers all histories; S bounded; env/policy arbitrary total functions; keys idealised (distinct terms distinct); lanes of vectorised rollouts are C12; log-prob numerics are C15/C16",
     ref="DESIGN.md §2 C04"),
+ "C05": dict(
+    text="AbstractOffPolicyAlgorithm.step is traced with the real ReplayBuffer (symbolic insert position) over an uninterpreted environment (bare / TimeLimit with symbolic limit and count; Discrete and Box with symbolic bounds) and an uninterpreted stateful behaviour policy, from an arbitrary carried state; the inserted row (observation acted on, PRE-reset successor observation, chosen action, reward of the clipped action, done, timeout = truncated and not terminated, both policy states), position+1 and the carried env/policy states (reset iff done, fresh keys) are shown equal (unsat) to a reference interpreter written from the statement. reset() and iteration() are traced for a grid of (num_envs, learning_starts, num_steps, buffer_size): per-env positions equal learning_starts after warm-up, advance by num_steps per iteration, capacity buffer_size//num_envs.",
+    note="capacity 2, envs <=2 (3 thorough), learning_starts/num_steps small: static grid; env/policy arbitrary total functions; ring semantics beyond the inserted slot are C06; lane independence is C12",
+    ref="DESIGN.md §2 C05"),
 }
 NOT_YET = {}
 NA = {"C18": "file-system I/O and NumPy serialisation of concrete buffers: nothing symbolic to execute (eqx.tree_serialise_leaves crosses into numpy.save, CrossHair realises every input at that boundary); 'fails loudly' is an exception-path property of equinox. See DESIGN.md §2 C18."}
